@@ -152,6 +152,18 @@ BATCH = Stage(
     trace=("Trace_Batch.tla", "Trace_Batch.cfg"),
     nontrivial=lambda e: True,
 )
+BUILDER = Stage(
+    family="builder",
+    reset_ev="New",
+    mc={"quick": [("MC_Builder.tla", "MC_Builder.cfg", "pass"), ("MC_Builder.tla", "MC_Builder_sound.cfg", "pass"),
+                  ("MC_Builder.tla", "MC_Builder_neg.cfg", "fail")],
+        "thorough": [("MC_Builder.tla", "MC_Builder_t.cfg", "pass"), ("MC_Builder.tla", "MC_Builder_sound.cfg", "pass"),
+                     ("MC_Builder.tla", "MC_Builder_neg.cfg", "fail")]},
+    parts={"quick": [("", 1)], "thorough": [("", 4)]},
+    trace=("Trace_Builder.tla", "Trace_Builder.cfg"),
+    nontrivial=lambda e: e.get("ev") == "Build",
+    behaviours={"quick": [("Gen_Builder.tla", "Gen_Builder.cfg", 150, 10)], "thorough": [("Gen_Builder.tla", "Gen_Builder.cfg", 3000, 10)]},
+)
 SPLIT_BATCH = Stage(
     family="split",
     mc={"quick": [], "thorough": []},
@@ -252,10 +264,12 @@ CHECKS = {
         assumptions=["deep snapshots through the reflection projector", "scripted ConnReader compacts its buffer on arrival like bufio"],
     ),
     "C09": dict(
-        stages=[BATCH, SPLIT_BATCH],
+        stages=[BATCH, SPLIT_BATCH, BUILDER],
         technique="TLA+ state machine of Build (candidate set, per-candidate goroutines, filter, UCS-2 fallback, unstable sort as "
                   "'any minimal element first') (Batch.tla): TLC exhaustive + TLC validation of the real sorter on every "
-                  "permutation and of repeated real Build calls",
+                  "permutation and of repeated real Build calls; the builder object across requests as a second state machine "
+                  "(Builder.tla): TLC exhaustive over setter / Build histories, TLC-generated histories replayed on one real builder "
+                  "and validated action by action",
         level_text="TLC explores every candidate list of <=2 (thorough CMPP 3) entries over the valid codings and an invalid "
                    "number, every origin, every can/parts environment, every order of the per-candidate runs, with the sort "
                    "modelled as what an unstable sort guarantees: result = the cheapest usable coding (hence deterministic), "
@@ -264,7 +278,12 @@ CHECKS = {
                    "candidate subset and part counts 1..3; real Build calls for candidate subsets, duplicates, invalid numbers, "
                    "origins and ~26 contents are repeated under shuffled candidate order and GOMAXPROCS 1/2/4/16, each "
                    "result compared with Expected computed by TLC from the environment observed through the single-coding "
-                   "entry points; the returned parts are judged by Split.tla (C09.parts)",
+                   "entry points; the returned parts are judged by Split.tla (C09.parts).  Builder.tla: every history of <=3 (thorough 4) "
+                   "setter and Build steps for every environment - each answer is the one the settings of that moment prescribe "
+                   "(a candidate set remembered across an OriginDataCoding call is the negative configuration); random and "
+                   "TLC-generated (Gen_Builder, -simulate) histories are executed on ONE real BatchDataCodingEncoder, and "
+                   "Trace_Builder steps Builder's actions: the settings are the specification's state, a Build event carries "
+                   "only the observed environment and answer",
         level_note="Go's map iteration order and goroutine schedule inside Build are sampled by repetition, not controlled; the "
                    "sorter is exercised exhaustively through a verif-tagged export shim; what a candidate can do is observed "
                    "from EncodeCMPP/SMPPContentAndSplit (C05-C07 judge those)",
